@@ -171,6 +171,9 @@ func checkC13(c *Ctx) {
 	// ---- O4 tag cache ----------------------------------------------------------------------------
 	c.checkTagCacheHit("O4 cache-hit-equality")
 
+	// ---- O7 bucket identity ------------------------------------------------------------------------
+	c.checkM3BucketIdentity("O7 bucket-identity")
+
 	// ---- O5 clock initialised before the goroutines start ---------------------------------------
 	if ctor := c.fn(pk, "", "NewReporter"); ctor != nil {
 		key := c.fnKey(ctor)
@@ -324,7 +327,7 @@ func (c *Ctx) checkM3Handles(rule string, rcm *ssa.Function) {
 		c.check(okSize, rule, key+":size", call.Pos(), "the charged size passed on is the handle's own pre-computed size",
 			"the size enqueued with the metric is not the handle's pre-computed size (C12 relies on it)", c.describe(call))
 	}
-	c.floor(rule, n, 5)
+	c.floor(rule, n, 3)
 }
 
 func (c *Ctx) checkM3CloseDrains(rule string, fMetCh *types.Var) {
